@@ -371,12 +371,12 @@ class Parser:
         it and to move the result into dest.
         """
         code_gen = code_gen or self._code_gen
-        if self._current_token.content == '{':
+        if self._current_token.is_mark('{'):
             return self.next_token() and self._rvalue_curly(dest, code_gen)
-        if self._current_token.content == '[':
+        if self._current_token.is_mark('['):
             return self._rvalue_fn_call(dest, code_gen)
         move_inst = OpCode.MOVE
-        uminus = self._current_token.content == '-'
+        uminus = self._current_token.is_mark('-')
         if uminus:
             self.next_token()
         value = self._current_constant()
@@ -398,7 +398,7 @@ class Parser:
                 return self.token_error('Unknown: "{}"')
         elif self._current_token.is_a(TokenTypes.REGISTER):
             value = self._current_reg()
-        elif self._current_token.content == 'not':
+        elif self._current_token.is_word('not'):
             return self._rvalue_not(dest, code_gen)
         else:
             return self.token_error('Cannot use {} as a value.')
@@ -413,7 +413,7 @@ class Parser:
     def _rvalue_curly(self, dest, code_gen):
         if not self._rvalue_expr(dest, code_gen):
             return False
-        if self.current_token != '}':
+        if not self.current_token.is_mark('}'):
             return self.token_error("Expected closing curly brace, got {}.")
         return self.next_token()
 
@@ -441,7 +441,7 @@ class Parser:
 
     def _at_rvalue(self, include_reg=True) -> bool:
         token = self.current_token
-        if str(token) in '{[':
+        if token.is_mark('{', '['):
             return True
         if token.token_type in (
                 TokenTypes.LITERAL_STRING,
@@ -552,7 +552,7 @@ class Parser:
         return self.next_token()
 
     def _call_routine(self) -> bool:
-        if str(self._current_token) == '[':
+        if self._current_token.is_mark('['):
             self.next_token()
             bracketed = True
         else:
@@ -564,7 +564,7 @@ class Parser:
         self._add_instruction(OpCode.CTX)
         self.next_token()
         for param_name in routine.value.params:
-            if self.current_token == ']':
+            if self.current_token.is_mark(']'):
                 return self.trigger_error(
                     'Missing parameter {}'.format(param_name))
             if not self._rvalue():
@@ -572,7 +572,7 @@ class Parser:
             self._add_instruction(OpCode.PARAM, param_name, Register.RESULT)
         self._add_instruction(OpCode.JSR, routine.name)
         if bracketed:
-            if str(self.current_token) != ']':
+            if not self.current_token.is_mark(']'):
                 return self.trigger_error(
                     'No closing bracket for function call.')
             self.next_token()
@@ -599,10 +599,10 @@ class Parser:
         # In this context, not inside an rvalue, a freestanding expression is
         # an error. A routine that returns a value is still called, but the
         # return value is thrown away.
-        if str(self.current_token) == '{':
+        if self.current_token.is_mark('{'):
             return self.token_error(
                 "A mathematical expression is not allowed here.")
-        if str(self.current_token == '['):
+        if self.current_token.is_mark('['):
             return self._call_routine()
         return self.token_error("Unexpected character {}")
 
